@@ -177,6 +177,45 @@ impl World {
         self.runtime.ingest(intent.envelope()).map_err(|e| format!("{e:?}"))
     }
 
+    /// Ticketed delivery: `submit_intent` (witnessed submission) followed by the runtime owner's
+    /// `ingest_ticketed_invocation`. Returns Ok(true) when newly staged, Ok(false) for a duplicate.
+    pub fn deliver_ticketed(&mut self, intent: &Intent) -> Result<bool, String> {
+        use warp_core::{
+            IntentSubmissionDisposition, OpticAdmissionTicket, OpticArtifactHandle, TicketedRuntimeIngressAuthority, TicketedRuntimeIngressDisposition,
+            OPTIC_ADMISSION_TICKET_KIND, OPTIC_ARTIFACT_HANDLE_KIND,
+        };
+        let env = intent.envelope();
+        let (sub, key, id) = match self.runtime.submit_intent(env.clone()).map_err(|e| format!("{e:?}"))? {
+            IntentSubmissionDisposition::Accepted { submission_id, head_key, ingress_id, .. } | IntentSubmissionDisposition::Duplicate { submission_id, head_key, ingress_id, .. } => {
+                (submission_id, head_key, ingress_id)
+            }
+        };
+        let mut h = blake3::Hasher::new();
+        h.update(b"verif/ticket");
+        h.update(key.worldline_id.as_bytes());
+        h.update(key.head_id.as_bytes());
+        h.update(&id);
+        let d: [u8; 32] = *h.finalize().as_bytes();
+        let ticket = OpticAdmissionTicket {
+            kind: OPTIC_ADMISSION_TICKET_KIND.to_owned(),
+            artifact_handle: OpticArtifactHandle { kind: OPTIC_ARTIFACT_HANDLE_KIND.to_owned(), id: format!("verif-{}", hex::encode(&d[..6])) },
+            artifact_hash: "verif-artifact".to_owned(),
+            operation_id: "verif-operation".to_owned(),
+            requirements_digest: "verif-requirements".to_owned(),
+            canonical_variables_digest: d[..8].to_vec(),
+            basis_request_digest: d,
+            aperture_request_digest: d,
+            budget_request_digest: d,
+            law_witness_digest: d,
+            ticket_digest: d,
+        };
+        let auth = TicketedRuntimeIngressAuthority::assume_runtime_owner();
+        match self.runtime.ingest_ticketed_invocation(&auth, sub, &ticket, env).map_err(|e| format!("{e:?}"))? {
+            TicketedRuntimeIngressDisposition::Staged { ingress: IngressDisposition::Accepted { .. }, .. } => Ok(true),
+            TicketedRuntimeIngressDisposition::Staged { .. } | TicketedRuntimeIngressDisposition::Duplicate { .. } => Ok(false),
+        }
+    }
+
     /// One scheduler pass (panics are caught and reported).
     pub fn pass(&mut self) -> PassResult {
         let r = std::panic::catch_unwind(std::panic::AssertUnwindSafe(|| SchedulerCoordinator::super_tick(&mut self.runtime, &mut self.provenance, &mut self.engine)));
